@@ -132,64 +132,78 @@ example : ∃ pm, pm.length = 2 ∧ pm.head? = some ((0 : Int), (2 : Int)) ∧
     pmatchOk 2 1 pm = true ∧ llmatch { s := #[97, 98] } (.cat (.group (.chr 97)) (.chr 98)) = some (0, 2) :=
   ⟨[(0, 2), (0, 1)], rfl, rfl, by decide, by decide⟩
 
-/-- The parser model inverts the ERE renderer: for every tree of the bracket-free grammar
-(`wfE`: literals, `.`, anchors, groups, alternation, `* + ? {m} {m,} {m,n}` with counts below
-`MAX_COUNT`, fewer than `MAX_GROUPS` groups) the text `renderERE r` compiles, without error, to
-the tree itself (literals case-folded under REG_ICASE) and `re_nsub` = number of groups.
-
-Full statement (not proved; bracket expressions are covered by the differential run of
-`compile` against `usual_regcomp`, which parses the generator's bracket source text on both
-sides, and the non-bracket part at run time by the `t` ops of the correspondence run):
-
-  theorem parse_render (fl : PFlags) (r : Re) (h : wf r) :
-      parseERE fl (renderERE r) = .ok (norm fl r, r.groups) ∧
-      (altFree r → parseBRE fl (renderBRE r) = .ok (norm fl r, r.groups))
-
-where `wf` also admits bracket expressions `cls bm` with a renderer from bitmaps to bracket
-syntax (ranges, named classes, negation, the `]` / `-` / `^` placement rules) and `norm` inserts
-the groups that the grammar needs (alternation inside concatenation, BRE anchors in the middle).
-Missing: the bitmap→bracket renderer and its inversion proof (`op_class / get_map_token /
-fill_class` are modelled in `parseClass` and differentially tested, not inverted). -/
-theorem parse_render_ere_partial (fl : PFlags) (r : Re) (h : wfE r = true) :
+/-- **The parser model inverts the ERE renderer on the full supported syntax.**  For every tree
+in the parser's shape (`wfE`: literals, `.`, bracket expressions = any bitmap over the bytes
+1..255, anchors, groups, alternation, `* + ? {m} {m,} {m,n}` with counts below `MAX_COUNT`, fewer than
+`MAX_GROUPS` groups) the text `renderERE r` compiles, without error, to the tree `regcomp` stores
+for it under the flags (`foldRe fl r`: literals case-folded under REG_ICASE, bracket bitmaps as
+`op_class` accumulates them under REG_ICASE / REG_NEWLINE) with `re_nsub` = number of groups.
+Bracket expressions are rendered from the bitmap (`renderCls`): `[[:name:]]` / `[^[:name:]]` when
+the bitmap is (the complement of) a named class, otherwise the members as maximal runs `lo-hi`
+with `]` first, `[` `^` `-` placed last (so `[` is never followed by `.:=`, `^` is never first, `-`
+is a literal), the two classes that cannot be listed positively (`{}` and `{^}`) as a negated
+listing, and `{-,^}` as `[-^]`; `Usual.C04.parseClass_clsBody` proves that `op_class`
+(`get_map_token`, `fill_class`, ranges, negation) reads this back. -/
+theorem parse_render_ere (fl : PFlags) (r : Re) (h : wfE r = true) :
     parseERE fl (renderERE r) = .ok (foldRe fl r, r.groups) :=
   parseERE_renderERE fl r h
 
-/-- the text `^(A|\(){2,5}|.+` -/
-example : wfE (.alt (.cat .bol (.rep (.group (.alt (.chr 65) (.chr 40))) 2 (some 5))) (.rep .any 1 none)) = true ∧
-    renderERE (.alt (.cat .bol (.rep (.group (.alt (.chr 65) (.chr 40))) 2 (some 5))) (.rep .any 1 none))
-      = [94, 40, 65, 124, 92, 40, 41, 123, 50, 44, 53, 125, 124, 46, 43] ∧
-    parseERE { icase := true } [94, 40, 65, 124, 92, 40, 41, 123, 50, 44, 53, 125, 124, 46, 43] =
-      .ok (.alt (.cat .bol (.rep (.group (.alt (.chr 97) (.chr 40))) 2 (some 5))) (.rep .any 1 none), 1) := by
-  have e : renderERE (.alt (.cat .bol (.rep (.group (.alt (.chr 65) (.chr 40))) 2 (some 5))) (.rep .any 1 none))
-      = [94, 40, 65, 124, 92, 40, 41, 123, 50, 44, 53, 125, 124, 46, 43] := by decide
-  refine ⟨by decide, e, ?_⟩
-  have := parse_render_ere_partial { icase := true }
-    (.alt (.cat .bol (.rep (.group (.alt (.chr 65) (.chr 40))) 2 (some 5))) (.rep .any 1 none)) (by decide)
+/-- Without compile flags the round trip is exact: the stored tree is the tree itself. -/
+theorem parse_render_ere_noflags (r : Re) (h : wfE r = true) :
+    parseERE {} (renderERE r) = .ok (r, r.groups) := by
+  have h2 : wfL 2 r = true := by
+    simp only [wfE, Bool.and_eq_true] at h; exact h.1
+  rw [parse_render_ere {} r h, foldRe_noflags r 2 h2]
+
+/-- the text `^(A|\(){2,5}|[b-dx^-]+` (the bitmap is that of `[b-dx^-]`) -/
+example :
+    let r : Re := .alt (.cat .bol (.rep (.group (.alt (.chr 65) (.chr 40))) 2 (some 5)))
+      (.rep (.cls (2 ^ 98 + 2 ^ 99 + 2 ^ 100 + 2 ^ 120 + 2 ^ 94 + 2 ^ 45)) 1 none)
+    wfE r = true ∧
+    renderERE r = [94, 40, 65, 124, 92, 40, 41, 123, 50, 44, 53, 125, 124, 91, 98, 45, 100, 120, 94, 45, 93, 43] ∧
+    parseERE {} [94, 40, 65, 124, 92, 40, 41, 123, 50, 44, 53, 125, 124, 91, 98, 45, 100, 120, 94, 45, 93, 43]
+      = .ok (r, 1) := by
+  intro r
+  have e : renderERE r = [94, 40, 65, 124, 92, 40, 41, 123, 50, 44, 53, 125, 124, 91, 98, 45, 100, 120, 94, 45, 93, 43] := by
+    decide +kernel
+  refine ⟨by decide +kernel, e, ?_⟩
+  have := parse_render_ere_noflags r (by decide +kernel)
   rw [e] at this
   exact this
 
-/-- Same for BRE (`parse_posix_basic`): trees without alternation in which `^` is the first and
-`$` the last item of a (sub)pattern (elsewhere they are literals in a BRE), `*` and `\{m,n\}`
-repetitions, `\( \)` groups.  The context rules of the C parser (`*` after `\(` or `^` is a
-literal, `^` is an anchor only at the start, `$` only before the end or `\)`) are part of the
-model and of this proof.  Bracket expressions: see `parse_render_ere_partial`. -/
-theorem parse_render_bre_partial (fl : PFlags) (r : Re) (h : wfB r = true) :
+/-- Same for BRE (`parse_posix_basic`): trees without alternation (strict BRE has none) in which
+`^` is the first and `$` the last item of a (sub)pattern (elsewhere they are literals in a BRE),
+`*` and `\{m,n\}` repetitions, `\( \)` groups, bracket expressions as above.  The context rules of
+the C parser (`*` after `\(` or `^` is a literal, `^` is an anchor only at the start, `$` only before
+the end or `\)`) are part of the model and of this proof. -/
+theorem parse_render_bre (fl : PFlags) (r : Re) (h : wfB r = true) :
     parseBRE fl (renderBRE r) = .ok (foldRe fl r, r.groups) :=
   parseBRE_renderBRE fl r h
 
-/-- the text `^\(B*\)\{2,\}\*$` -/
-example : wfB (.cat .bol (.cat (.rep (.group (.rep (.chr 66) 0 none)) 2 none) (.cat (.chr 42) .eol))) = true ∧
-    renderBRE (.cat .bol (.cat (.rep (.group (.rep (.chr 66) 0 none)) 2 none) (.cat (.chr 42) .eol)))
-      = [94, 92, 40, 66, 42, 92, 41, 92, 123, 50, 44, 92, 125, 92, 42, 36] ∧
-    parseBRE { icase := true } [94, 92, 40, 66, 42, 92, 41, 92, 123, 50, 44, 92, 125, 92, 42, 36] =
-      .ok (.cat .bol (.cat (.rep (.group (.rep (.chr 98) 0 none)) 2 none) (.cat (.chr 42) .eol)), 1) := by
-  have e : renderBRE (.cat .bol (.cat (.rep (.group (.rep (.chr 66) 0 none)) 2 none) (.cat (.chr 42) .eol)))
-      = [94, 92, 40, 66, 42, 92, 41, 92, 123, 50, 44, 92, 125, 92, 42, 36] := by decide
-  refine ⟨by decide, e, ?_⟩
-  have := parse_render_bre_partial { icase := true }
-    (.cat .bol (.cat (.rep (.group (.rep (.chr 66) 0 none)) 2 none) (.cat (.chr 42) .eol))) (by decide)
+theorem parse_render_bre_noflags (r : Re) (h : wfB r = true) :
+    parseBRE {} (renderBRE r) = .ok (r, r.groups) := by
+  have h2 : wfBL 1 true true r = true := by
+    simp only [wfB, Bool.and_eq_true] at h; exact h.1
+  rw [parse_render_bre {} r h, foldRe_noflagsB r 1 true true h2]
+
+/-- the text `^\(B*\)\{2,\}[[:digit:]]$` under REG_ICASE -/
+example :
+    let r : Re := .cat .bol (.cat (.rep (.group (.rep (.chr 66) 0 none)) 2 none) (.cat (.cls (classBm "digit")) .eol))
+    wfB r = true ∧
+    renderBRE r = [94, 92, 40, 66, 42, 92, 41, 92, 123, 50, 44, 92, 125, 91, 91, 58, 100, 105, 103, 105, 116, 58, 93, 93, 36] ∧
+    parseBRE { icase := true } [94, 92, 40, 66, 42, 92, 41, 92, 123, 50, 44, 92, 125, 91, 91, 58, 100, 105, 103, 105, 116, 58, 93, 93, 36]
+      = .ok (.cat .bol (.cat (.rep (.group (.rep (.chr 98) 0 none)) 2 none) (.cat (.cls (classBm "digit")) .eol)), 1) := by
+  intro r
+  have e : renderBRE r = [94, 92, 40, 66, 42, 92, 41, 92, 123, 50, 44, 92, 125, 91, 91, 58, 100, 105, 103, 105, 116, 58, 93, 93, 36] := by
+    decide +kernel
+  refine ⟨by decide +kernel, e, ?_⟩
+  have := parse_render_bre { icase := true } r (by decide +kernel)
   rw [e] at this
-  exact this
+  have hf : foldRe { icase := true } r =
+      .cat .bol (.cat (.rep (.group (.rep (.chr 98) 0 none)) 2 none) (.cat (.cls (classBm "digit")) .eol)) := by
+    decide +kernel
+  have hg : r.groups = 1 := by decide
+  rw [this, hf, hg]
 
 /-! ### the model of the C back-tracking matcher (`Usual.C04.CM`, lean/Usual/C04/CMatch.lean)
 
